@@ -49,6 +49,12 @@ static uint8_t g_areaA[AREASZ], g_areaB[AREASZ], g_areaC[AREASZ], g_areaD[AREASZ
 #define NODE(k) ((k) == 0 ? &g_nd0 : (k) == 1 ? &g_nd1 : (k) == 2 ? &g_nd2 : &g_nd3)
 #define INODE(k) ((k) == 0 ? &g_in0 : &g_in1)
 #define AREA(a) ((a) == 0 ? g_areaA : (a) == 1 ? g_areaB : (a) == 2 ? g_areaC : g_areaD)
+/* area of segment k: symbolically chosen (areas may be shared between segments) unless FIXED_AREAS (byte-reading unit: segment k on area k) */
+#ifdef FIXED_AREAS
+#define SEG_AREA(k, sel) AREA(k)
+#else
+#define SEG_AREA(k, sel) AREA(sel)
+#endif
 
 /* ---- ghost state ------------------------------------------------------------------------ */
 struct vsnap;
@@ -378,7 +384,7 @@ __CPROVER_ensures(post_splice(ubuf, offset, size, __CPROVER_return_value))
       for (int k_ = 0; k_ < NSEG; k_++) { \
         struct ubuf_block *b_ = NODE(k_); \
         VASSUME(soff[k_] <= MAXSZ && ssz[k_] <= MAXSZ && sarea[k_] < 4 && (AREASZ == 1 || soff[k_] + ssz[k_] <= AREASZ)); \
-        b_->ubuf.mgr = &g_bmgr; b_->offset = soff[k_]; b_->size = ssz[k_]; b_->buffer = AREA(sarea[k_]); b_->map = (smap[k_] & 1) != 0; \
+        b_->ubuf.mgr = &g_bmgr; b_->offset = soff[k_]; b_->size = ssz[k_]; b_->buffer = SEG_AREA(k_, sarea[k_]); b_->map = (smap[k_] & 1) != 0; \
         b_->next_ubuf = k_ + 1 < NSEG ? &NODE(k_ + 1)->ubuf : NULL; \
         /* fields that only mean something in a head */ \
         b_->total_size = junk[k_]; b_->cached_ubuf = &b_->ubuf; b_->cached_offset = junk[k_]; b_->cached_end_ubuf = NULL; \
@@ -400,7 +406,7 @@ __CPROVER_ensures(post_splice(ubuf, offset, size, __CPROVER_return_value))
       for (int k_ = 0; k_ < NINS; k_++) { \
         struct ubuf_block *b_ = INODE(k_); \
         VASSUME(ioff[k_] <= MAXSZ && isz[k_] <= MAXSZ && iarea[k_] < 4 && (AREASZ == 1 || ioff[k_] + isz[k_] <= AREASZ)); \
-        b_->ubuf.mgr = &g_bmgr; b_->offset = ioff[k_]; b_->size = isz[k_]; b_->buffer = AREA(iarea[k_]); b_->map = false; \
+        b_->ubuf.mgr = &g_bmgr; b_->offset = ioff[k_]; b_->size = isz[k_]; b_->buffer = SEG_AREA(3 - k_, iarea[k_]); b_->map = false; \
         b_->next_ubuf = k_ + 1 < NINS ? &INODE(k_ + 1)->ubuf : NULL; \
         b_->total_size = 0; b_->cached_ubuf = &b_->ubuf; b_->cached_offset = 0; b_->cached_end_ubuf = NULL; \
         pos_ += isz[k_]; \
